@@ -50,6 +50,10 @@ def check(repo: Repo) -> Result:
     r6 = res.rule("C12-R6", "a copied registry starts its own history: the deep copy owns a new table and a new unit-string cache and is built from the copied table only (shared with C13-R1 / C11-R3)", floor=3)
     share(res, r6, "C13", lambda t: c13.ownership(repo, t), ["C13-R1"], want=lambda k: k in ("unit_registry.py:UnitRegistry.__deepcopy__", "unit-cache-owner", "deepcopy-table") or k.startswith("unit-cache-writer:"), min_keys=3)
     share(res, r6, "C11", lambda t: c11.rebuilt_from_table(repo, t), ["C11-R3"], want=lambda k: k == "UnitRegistry.__deepcopy__:no-defaults")
+    from rules import c02
+
+    r7 = res.rule("C12-R7", "the rows the lookup derives are the rows the purge recognises: a derived prefixed row is stored as NOT prefixable (the flag _forget_prefixed tells derived rows by), under prefix + symbol, with scale = base scale * prefix value (shared with C02-R2)", floor=3)
+    share(res, r7, "C02", lambda t: c02.prefix_composition(repo, t), ["C02-R2"], want=lambda k: k in ("not-prefixable", "store-key", "scale", "returns"), min_keys=3)
     return res
 
 
